@@ -97,6 +97,25 @@ def siblings_program(pt, k):
     return pt.Return(left(pt.Int(1)) + right(pt.Int(2)) + third(pt.Int(3)))
 
 
+def query_program(pt, k):
+    """subroutines owning scratch slots, and the wrapper objects a caller can ask about (type_of / has_return)"""
+    @pt.Subroutine(pt.TealType.none)
+    def bump():
+        tmp = pt.ScratchVar(pt.TealType.uint64)
+        return pt.Seq(tmp.store(pt.App.globalGet(pt.Bytes("counter"))), pt.App.globalPut(pt.Bytes("counter"), tmp.load() + pt.Int(k + 1)))
+
+    @pt.Subroutine(pt.TealType.uint64)
+    def square_plus(x, y):
+        acc = pt.ScratchVar(pt.TealType.uint64)
+        return pt.Seq(acc.store(x * x), acc.load() + y)
+
+    @pt.Subroutine(pt.TealType.uint64)
+    def third(a):
+        w = pt.ScratchVar(pt.TealType.uint64)
+        return pt.Seq(w.store(a), pt.Return(w.load() + square_plus(a, a)))
+    return pt.Seq(bump(), pt.Pop(square_plus(pt.Int(3), pt.Int(4))), pt.Pop(third(pt.Int(5))), pt.Approve()), [bump, square_plus, third]
+
+
 def router_fail_program(pt, k):
     """a router whose clear-state program needs version 7 (sha3_256): compile_program(version=6) evaluates the whole approval
     program and then fails.  Void methods first, one value-returning method last (keeps clear of the known repeat:router finding)."""
@@ -177,6 +196,23 @@ def main():
                 for rep in range(45):
                     t = pt.compileTeal(siblings_program(pt, k), pt.Mode.Application, version=version, optimize=pt.OptimizeOptions(scratch_slots=False, frame_pointers=False) if version >= 8 else None)
                     d.append(hashlib.sha1(t.encode()).hexdigest())
+            elif kind == "query":
+                # the same expression object compiled, then asked about itself (type_of / has_return of its subroutines and calls - what
+                # any caller may do between two compilations), then compiled again
+                _, k, version = item
+                prog, wrappers = query_program(pt, k)
+                kw = {"optimize": pt.OptimizeOptions(scratch_slots=False, frame_pointers=False)} if (version >= 8 and k % 2) else {}
+                t = pt.compileTeal(prog, pt.Mode.Application, version=version, **kw)
+                d = [hashlib.sha1(t.encode()).hexdigest()]
+                # one query at a time (asking every routine at once could shift all of them alike), a compilation after each
+                for w in wrappers[k % len(wrappers):] + wrappers[:k % len(wrappers)]:
+                    w.type_of()
+                    t2 = pt.compileTeal(prog, pt.Mode.Application, version=version, **kw)
+                    d.append(hashlib.sha1(t2.encode()).hexdigest())
+                    w.has_return()
+                prog.type_of()
+                t3 = pt.compileTeal(prog, pt.Mode.Application, version=version, **kw)
+                d.append(hashlib.sha1(t3.encode()).hexdigest())
             elif kind == "routerfail":
                 _, k, version = item
                 r = router_fail_program(pt, k)
